@@ -107,9 +107,11 @@ class NumpyFacade:
         return getattr(real_np, k)
 
     # -- array construction: float arrays carry objects
+    int_as_object = False      # harness switch: integer arrays also carry objects (symbolic counters)
+
     def _dt(self, dtype):
         if isinstance(dtype, _DT):
-            return object if dtype.kind == "f" else dtype.real
+            return object if (dtype.kind == "f" or self.int_as_object) else dtype.real
         try:
             if dtype in FLOAT_DT:
                 return object
@@ -148,6 +150,13 @@ class NumpyFacade:
 
     def array(self, x, dtype=None, **kw):
         if dtype is not None and self._dt(dtype) is object:
+            if not isinstance(x, real_np.ndarray):
+                x = list(x)
+            if not _has_sym(x):
+                try:    # same conversions (and errors) as the real float array, then carried as objects
+                    return real_np.array(x, dtype=float).astype(object)
+                except TypeError:
+                    pass
             return real_np.array(x, dtype=object)
         if dtype is None:
             if isinstance(x, (list, tuple)) or hasattr(x, "__iter__") and not isinstance(x, real_np.ndarray):
